@@ -5,12 +5,13 @@ from .. import sysinterp, sysgen
 from . import _handover
 
 PROP = "C12"
-LEAN_TARGETS = ["Eliot.Properties.C12"] + [t for t in _handover.LEAN_TARGETS if t != "Eliot.Proofs.HandoverGen"]
+LEAN_TARGETS = ["Eliot.Properties.C12", "Eliot.Properties.C12Buf"] + [t for t in _handover.LEAN_TARGETS if t != "Eliot.Proofs.HandoverGen"]
 SKELETON_TARGETS = {"Generated.handover = Handover.fixedSkel": "Eliot.Proofs.HandoverGen"}
 AUDIT = "Eliot/Audit/C12.lean"
 THEOREMS = ["Sys.C12.trim1000_trim", "Sys.C12.bufPhase_basic", "Sys.C12.buffered_until_first_add", "Sys.C12.first_add_delivers_buffer",
             "Sys.C12.later_add_gets_nothing_old", "Sys.C12.removed_gets_nothing", "Sys.C12.after_remove",
-            "Sys.C12.globals_are_dict", "Sys.C12.globals_at_delivery"] + _handover.THEOREMS
+            "Sys.C12.globals_are_dict", "Sys.C12.globals_at_delivery",
+            "Sys.C12.buffered_until_first_add_all", "Sys.C12.still_buffering"] + _handover.THEOREMS
 RULE = ("histories of 5-60 (quick) / 5-400 (thorough) log / add_destinations / remove_destination / add_global_fields calls over 4 "
         "destinations, including more than 1000 buffered messages, several destinations per call, add_destinations() with none, "
         "remove-then-add, global fields that override message fields and change between buffering and hand-over; healthy destinations "
